@@ -258,16 +258,21 @@ CHECKS = {
         "rule": ("rapid: seed program x 0-3 token-level edits (replace/insert hostile token, same-class replacement, delete, duplicate, swap, deep nesting, huge type dimensions, "
                  "truncation) and token soups / raw bytes. Non-trivial: >= 5 tokens and (>= 1 edit or soup). Distinct by hash of the input bytes. Classes: compiled / "
                  "parsed-compile-error / value-expression / syntax-error. Include graphs: file count x edge shape {random, DAG, cycle entered from outside} x declaration kind per file; "
-                 "non-trivial: a cycle, a repeated include, a self include or a missing file."),
+                 "non-trivial: a cycle, a repeated include, a self include or a missing file. Semantic-error programs: generated well-typed "
+                 "program x one or two injected mistakes from a catalogue (constructs in contexts that do not allow them: wildcard / self / call references / modifiers / split in the top-level "
+                 "call; calls depending on themselves or on each other in 2- and 3-cycles, optionally each disabled by its own output; pipelines calling themselves or each other; split in a plain "
+                 "call, map call without split; undefined callees; bursts of declaration-level errors); non-trivial: a mistake was injected."),
         "assumptions": ["position = error text contains ':<line>' or 'line <n>'"],
         "units": [
             U("props/lang", "TestC08NearValid", (4000, 10), (60000, 14)),
             U("props/lang", "TestC08Bytes", (20000, 2), (300000, 2)),
             U("props/lang", "TestC08IncludeGraphs", (4000, 2), (100000, 4)),
+            U("props/lang", "TestC08SemanticErrors", (1500, 4), (40000, 6)),
         ],
         "fuzz": [{"pkg": "props/lang", "target": "FuzzC08", "thorough": {"seconds": 600}}],
         "floors": {"quick": {"compiled": 1000, "parsed-compile-error": 1000, "syntax-error": 5000, "edit:replace-same-class": 2000,
-                             "include-cycle": 2000, "repeated-include": 1000, "missing-include": 500, "self-include": 500}},
+                             "include-cycle": 2000, "repeated-include": 1000, "missing-include": 500, "self-include": 500,
+                             "semantic-error-program": 4000, "inject:ctx:top-wildcard": 80, "inject:ctx:dependency-cycle-self-disabled": 80, "inject:ctx:mutual-recursion": 50}},
     },
     "C18": {
         "level": "exploration",
